@@ -377,31 +377,13 @@ func workerPoolRule(P *Program, R *Report) {
 					}
 				case *ssa.Call:
 					if isCallTo(x, "builtin:append") {
-						base := x.Call.Args[0]
-						for k := 0; k < 10; k++ {
-							if sl, ok := base.(*ssa.Slice); ok {
-								base = sl.X
-								continue
+						for _, base := range sliceRoots(x.Call.Args[0]) {
+							if _, isFV := rootOfAddr(base).(*ssa.FreeVar); isFV {
+								badw = append(badw, "append to captured slice at "+P.Pos(x.Pos()))
 							}
-							break
-						}
-						if _, isFV := rootOfAddr(base).(*ssa.FreeVar); isFV {
-							badw = append(badw, "append to captured slice at "+P.Pos(x.Pos()))
-						}
-						if u, ok := base.(*ssa.UnOp); ok {
-							// spilled parameter: local := param; ... append(local[:k], v)
-							if al, ok := u.X.(*ssa.Alloc); ok {
-								for _, r := range referrersOf(al) {
-									if st, ok := r.(*ssa.Store); ok && st.Addr == ssa.Value(al) {
-										if pp, ok := st.Val.(*ssa.Parameter); ok {
-											base = pp
-										}
-									}
-								}
+							if p, ok := base.(*ssa.Parameter); ok {
+								badw = append(badw, "append to shared list parameter "+p.Name()+" at "+P.Pos(x.Pos()))
 							}
-						}
-						if p, ok := base.(*ssa.Parameter); ok {
-							badw = append(badw, "append to shared list parameter "+p.Name()+" at "+P.Pos(x.Pos()))
 						}
 					}
 				}
@@ -523,4 +505,45 @@ func freshAtAllCallers(P *Program, fn *ssa.Function, p *ssa.Parameter, reach map
 		}
 	}
 	return n > 0
+}
+
+// sliceRoots: the slice values a (re-sliced, loop-carried, appended-to) slice expression is built from.
+func sliceRoots(v ssa.Value) []ssa.Value {
+	var out []ssa.Value
+	seen := map[ssa.Value]bool{}
+	var walk func(x ssa.Value)
+	walk = func(x ssa.Value) {
+		if seen[x] {
+			return
+		}
+		seen[x] = true
+		switch y := x.(type) {
+		case *ssa.Slice:
+			walk(y.X)
+		case *ssa.Phi:
+			for _, e := range y.Edges {
+				walk(e)
+			}
+		case *ssa.Call:
+			if isCallTo(y, "builtin:append") {
+				walk(y.Call.Args[0])
+				return
+			}
+			out = append(out, x)
+		case *ssa.UnOp:
+			if al, ok := y.X.(*ssa.Alloc); ok {
+				for _, r := range referrersOf(al) {
+					if st, ok := r.(*ssa.Store); ok && st.Addr == ssa.Value(al) {
+						walk(st.Val)
+					}
+				}
+				return
+			}
+			out = append(out, x)
+		default:
+			out = append(out, x)
+		}
+	}
+	walk(v)
+	return out
 }
